@@ -209,3 +209,5 @@ func (b B) String() string {
 }
 
 func pick(r *rand.Rand, xs []string) string { return xs[r.Intn(len(xs))] }
+
+func newLocalRand(seed int64) *rand.Rand { return rand.New(rand.NewSource(seed)) }
